@@ -35,6 +35,20 @@ PER_FILE = 24
 TAGS = ['a', 'b', 'ab', 'ac', 'abc', 'bb', 'c', 'ca', 'abcd', 'd', 'e', 'f', 'g']
 DNA = 'ACGT'
 HISTS = [(4, 0, 8), (3, 1, 10), (2, 0, 5)]
+# arithmetic on the streamed pileup p: terms ['track'] | ['const', c] | [op, left, right]; operand order is part of the term
+_P, _C = ['track'], (lambda c: ['const', c])
+EXPRS = [
+    ['sub', _C(10), _P], ['sub', _P, _C(10)], ['pow', _C(3), _P], ['pow', _P, _C(2)],
+    ['floordiv', _P, _C(2)], ['floordiv', _C(7), ['add', _P, _C(1)]], ['mod', _P, _C(2)], ['mod', _C(7), ['add', _P, _C(1)]],
+    ['gt', _C(2), _P], ['gt', _P, _C(2)], ['lt', _C(1), _P], ['lt', _P, _C(1)], ['ge', _C(1), _P], ['ge', _P, _C(1)],
+    ['le', _C(2), _P], ['le', _P, _C(2)], ['eq', _C(1), _P], ['eq', _P, _C(1)], ['ne', _C(1), _P], ['ne', _P, _C(0)],
+    ['sub', ['add', _P, _C(3)], ['mul', _P, _C(2)]], ['sub', ['mul', _P, _C(2)], ['add', _P, _C(3)]],
+    ['mul', ['sub', _C(1), _P], _P], ['sub', _P, ['mul', _P, _P]], ['add', _C(1), _P], ['mul', _C(2), _P],
+    ['sub', ['mul', _C(2), _C(3)], _P], ['floordiv', ['sub', _C(0), _P], _C(2)], ['mod', ['sub', _C(1), _P], _C(3)],
+    ['sub', ['gt', _P, _C(1)], ['mul', _C(2), _P]],
+]
+COMPARISONS = ('gt', 'lt', 'ge', 'le', 'eq', 'ne')
+EXPR_HIST = (4, -2, 6)
 
 
 # ----------------------------------------------------------------------------- generation
@@ -116,6 +130,10 @@ def _genome_data(rng, nchrom, equal_windows):
     return sizes, a, b
 
 
+def _cov_slice(a, c, x, y):
+    return [sum(1 for cc, s, e in a if cc == c and s <= p < e) for p in range(x, y)]
+
+
 def _gen(sizes, a, b, sa, sb, kind='gen'):
     return dict(kind=kind, sizes=sizes, a=a, b=b, sa=sa, sb=sb, hist=[3, 0, 3])
 
@@ -166,8 +184,23 @@ def generate(tier, seed):
                 cases.append(_gen(sizes, a, b, sa, sb))
                 for kind in ('genmean', 'gensum', 'gensum0'):
                     cases.append(_gen(sizes, a, b, sa, sb, kind=kind))
+                if i % 2 == 0 or not quick:
+                    # stranded windows: the windows of b with a strand symbol each ('.' included), same chunking
+                    strands = [rng.choice('+-.') for _ in b]
+                    # a '.' (and a '+') window over a signal that is not its own mirror image, whenever one exists
+                    asym = [j for j, (c, x, y) in enumerate(b) if _cov_slice(a, c, x, y) != _cov_slice(a, c, x, y)[::-1]]
+                    if asym:
+                        strands[asym[i % len(asym)]] = '.'
+                        if len(asym) > 1:
+                            strands[asym[(i + 1) % len(asym)]] = '+-'[i % 2]
+                    c = _gen(sizes, a, b, sa, sb, kind='genstrand' if not equal or i % 4 else 'genstrandmean')
+                    c['strands'] = strands
+                    cases.append(c)
+                    c = _gen(sizes, a, b, sa, sb, kind='genexpr')
+                    c['exprs'] = [EXPRS[(len(cases) + 5 * j) % len(EXPRS)] for j in range(4)]
+                    cases.append(c)
     # small cases first
-    order = dict(rechunk=0, flat=1, gen=2, genmean=3, gensum=4, gensum0=5)
+    order = dict(rechunk=0, flat=1, gen=2, genmean=3, gensum=4, gensum0=5, genstrand=6, genstrandmean=7, genexpr=8)
     cases.sort(key=lambda c: (order[c['kind']], _n_of(c), len(c['sa'] if 'sa' in c else c['sizes'])))
     return cases
 
@@ -344,6 +377,10 @@ def _observe_gen(case):
         ('sum0', lambda: ints(bnp.compute(sa().get_pileup()[sb()].sum(axis=0))), lambda: ints(ma.get_pileup()[mb].sum(axis=0))),
     ]
     own = dict(genmean='mean0', gensum='sumall', gensum0='sum0')
+    if case['kind'] in ('genstrand', 'genstrandmean'):
+        return _observe_stranded(case, genome, names, ta, ma, sa, ragged, ratios)
+    if case['kind'] == 'genexpr':
+        return _observe_expr(case, genome, ta, tb, sa, sb, ma, mb, track_rows, mask_rows, ragged)
     out = {}
     for name, fs, fm in pipes:
         if (name in own.values()) != (case['kind'] in own) or (case['kind'] in own and own[case['kind']] != name):
@@ -355,6 +392,96 @@ def _observe_gen(case):
             except Exception as e:
                 r.append(_err(e))
         out[name] = r
+    return out
+
+
+def _observe_stranded(case, genome, names, ta, ma, sa, ragged, ratios):
+    import numpy as np
+    import bionumpy as bnp
+    from bionumpy.streams import NpDataclassStream
+    from bionumpy.datatypes import StrandedInterval
+    rows = case['b']
+    tw = StrandedInterval([names[c] for c, _, _ in rows], [a for _, a, _ in rows], [b for _, _, b in rows], case['strands'])
+
+    def sw():
+        return genome.get_intervals(NpDataclassStream(iter(_cut(tw, case['sb'])), dataclass=StrandedInterval), stranded=True)
+    mw = genome.get_intervals(tw, stranded=True)
+    if case['kind'] == 'genstrand':
+        pipes = [('svalues', lambda: ragged(bnp.compute(sa().get_pileup()[sw()])), lambda: ragged(ma.get_pileup()[mw]))]
+    else:
+        pipes = [('smean0', lambda: ratios(bnp.compute(sa().get_pileup()[sw()].mean(axis=0))),
+                  lambda: ratios(ma.get_pileup()[mw].mean(axis=0)))]
+    out = {}
+    for name, fs, fm in pipes:
+        r = []
+        for f in (fs, fm):
+            try:
+                r.append(f())
+            except Exception as e:
+                r.append(_err(e))
+        out[name] = r
+    return out
+
+
+def _py_eval(e, p):
+    import operator
+    import numpy as np
+    if e[0] == 'track':
+        return p
+    if e[0] == 'const':
+        return e[1]
+    x, y = _py_eval(e[1], p), _py_eval(e[2], p)
+    arith = dict(add=operator.add, sub=operator.sub, mul=operator.mul, pow=operator.pow, floordiv=operator.floordiv, mod=operator.mod)
+    if e[0] in arith:
+        return arith[e[0]](x, y)                       # `10 - p`: Python hands (10, p) to np.subtract in this order
+    # comparisons through the ufunc itself, so that a scalar written on the left is the ufunc's first operand
+    ufunc = dict(gt=np.greater, lt=np.less, ge=np.greater_equal, le=np.less_equal, eq=np.equal, ne=np.not_equal)[e[0]]
+    return ufunc(x, y)
+
+
+def _expr_is_bool(e):
+    return e[0] in COMPARISONS
+
+
+def _observe_expr(case, genome, ta, tb, sa, sb, ma, mb, track_rows, mask_rows, ragged):
+    import numpy as np
+    import bionumpy as bnp
+    k, lo, hi = EXPR_HIST
+    out = {'exprs': []}
+    for e in case['exprs']:
+        isb = _expr_is_bool(e)
+        queries = ['track', 'values', 'sum'] + ([] if isb else ['hist'])
+
+        def streamed(q):
+            p = sa().get_pileup()
+            w = sb() if q == 'values' else None
+            t = _py_eval(e, p)
+            if q == 'track':
+                d = bnp.compute(t.get_data())
+                return mask_rows(d) if isb else track_rows(d)
+            if q == 'values':
+                return ragged(bnp.compute(t[w]))
+            if q == 'sum':
+                return int(bnp.compute(t.sum()))
+            return [int(x) for x in bnp.compute(np.histogram(t, bins=k, range=(lo, hi)))[0]]
+
+        def memory(q):
+            t = _py_eval(e, ma.get_pileup())
+            if q == 'track':
+                return mask_rows(t.get_data()) if isb else track_rows(t.get_data())
+            if q == 'values':
+                return ragged(t[mb])
+            if q == 'sum':
+                return int(t.sum())
+            return [int(x) for x in np.histogram(t, bins=k, range=(lo, hi))[0]]
+        for q in queries:
+            r = []
+            for f in (streamed, memory):
+                try:
+                    r.append(f(q))
+                except Exception as ex:
+                    r.append(_err(ex))
+            out['exprs'].append([e, q, r[0], r[1]])
     return out
 
 
@@ -433,6 +560,10 @@ def failing_components(case, o):
             for ne, out in o[key]:
                 if _is_err(out) or sum(out, []) != ids or not _sizes_ok(lo, ne, [len(c) for c in out]):
                     bad.append('chunk_%s' % key)
+    elif case['kind'] == 'genexpr':
+        for e, q, s, m in o['exprs']:
+            if _is_err(s) or _is_err(m) or s != m:
+                bad.append('expr:%s:%s' % (e[0], q))
     else:
         for name, (s, m) in o.items():
             if _is_err(s) or _is_err(m) or s != m:
@@ -595,8 +726,39 @@ def _gen_to_coq(case, o):
                 sumall='PValuesSum', sum0='PValuesSum0')
     runs = ['(%s, %s, %s)' % (pipe[name], _pobs(name, o[name][0]), _pobs(name, o[name][1]))
             for name in ('pileup', 'mask', 'sum', 'hist', 'hist_sum', 'values', 'mean0', 'sumall', 'sum0') if name in o]
-    return 'CGen {| g_sizes := %s; g_a := %s; g_b := %s; g_runs := %s |}' % (
-        zl(case['sizes']), chunks(case['a'], case['sa']), chunks(case['b'], case['sb']), clist(runs))
+    code = {'+': 0, '-': 1, '.': 2}
+    wchunks, sruns, eruns = [], [], []
+    if case['kind'] in ('genstrand', 'genstrandmean'):
+        rows = [(c, a, b, code[st]) for (c, a, b), st in zip(case['b'], case['strands'])]
+        wchunks = [clist(['(%s, ((%s, %s), %s))' % (cz(c), cz(a), cz(b), cz(st)) for c, a, b, st in ch]) for ch in _cut(rows, case['sb'])]
+        for name, pn in (('svalues', 'SValues'), ('smean0', 'SValuesMean0')):
+            if name in o:
+                sruns.append('(%s, %s, %s)' % (pn, _pobs('values' if name == 'svalues' else 'mean0', o[name][0]),
+                                               _pobs('values' if name == 'svalues' else 'mean0', o[name][1])))
+    if case['kind'] == 'genexpr':
+        ek, elo, ehi = EXPR_HIST
+        qn = dict(track='QTrack', values='QValues', sum='QSum', hist='(QHist %s %s %s)' % (cz(ek), cz(elo), cz(ehi)))
+        for e, q, st, m in o['exprs']:
+            kind = dict(track='mask' if _expr_is_bool(e) else 'pileup', values='values', sum='sum', hist='hist')[q]
+            eruns.append('(%s, %s, %s, %s)' % (_texpr(e), qn[q], _pobs(kind, _boolrows(st) if q == 'values' else st),
+                                               _pobs(kind, _boolrows(m) if q == 'values' else m)))
+    return ('CGen {| g_sizes := %s; g_a := %s; g_b := %s; g_runs := %s; g_w := %s; g_sruns := %s; g_eruns := %s |}' % (
+        zl(case['sizes']), chunks(case['a'], case['sa']), chunks(case['b'], case['sb']), clist(runs, '(pipeline * pobs * pobs)'),
+        clist(wchunks, 'list (Z * swin)'), clist(sruns, '(spipeline * pobs * pobs)'), clist(eruns, '(texpr * query * pobs * pobs)')))
+
+
+def _boolrows(v):
+    return v if _is_err(v) else [[int(x) for x in r] for r in v]
+
+
+def _texpr(e):
+    if e[0] == 'track':
+        return 'TTrack'
+    if e[0] == 'const':
+        return '(TConst %s)' % cz(e[1])
+    op = dict(add='BAdd', sub='BSub', mul='BMul', pow='BPow', floordiv='BFloorDiv', mod='BMod', gt='BGt', lt='BLt', ge='BGe',
+              le='BLe', eq='BEq', ne='BNe')[e[0]]
+    return '(TBin %s %s %s)' % (op, _texpr(e[1]), _texpr(e[2]))
 
 
 def to_coq(case, o):
@@ -632,7 +794,7 @@ def describe(case, o):
 
 
 def distribution(cases, obs):
-    d = dict(flat=0, rechunk=0, gen=0, genmean=0, gensum=0, gensum0=0, n_entries={}, n_chunks={}, single_entry_chunks=0, cut_inside_group=0, chromosomes={},
+    d = dict(flat=0, rechunk=0, gen=0, genmean=0, gensum=0, gensum0=0, genstrand=0, genstrandmean=0, genexpr=0, n_entries={}, n_chunks={}, single_entry_chunks=0, cut_inside_group=0, chromosomes={},
              streamed_errors={})
     for c, o in zip(cases, obs):
         d[c['kind']] += 1
@@ -666,5 +828,5 @@ def search(tier, seed, disagreeing):
         else:
             n = len(c['a'])
             comps = compositions(n) if n <= 8 else [[n], [1] * n]
-            out += [_gen(c['sizes'], c['a'], c['b'], s, c['sb'], kind=c['kind']) for s in comps]
+            out += [dict(c, sa=s) for s in comps]
     return out[:1500]
